@@ -248,12 +248,19 @@ def normalise_device(txt, mode):
     if mode == 'dpcpp':
         t = _dpcpp_unwrap(t)
     if mode == 'Metal':
+        t = re.sub(r',\s*uint3\s+_occa_group_position\s*\[\[[^\]]*\]\]\s*,\s*uint3\s+_occa_thread_position\s*\[\[[^\]]*\]\]', '', t)
         t = re.sub(r'\[\[[^\]]*\]\]', '', t)
+        t = t.replace('_occa_group_position', 'blockIdx').replace('_occa_thread_position', 'threadIdx')
         t = re.sub(r'\bthreadgroup\s+(?!_)', 'VERIF_SHARED ', t)
+    if mode == 'dpcpp':
+        t = re.sub(r'auto\s*&\s*(\w+)\s*=\s*\*\(sycl__ext::oneapi::group_local_memory_for_overwrite<\s*([\w ]+?)\s*((?:\[[^\]]*\])+)\s*>\(item__get_group\(\)\)\);', r'VERIF_SHARED \2 \1\3;', t)
+        t = re.sub(r'sycl__atomic_ref<[^>]*>\(', '(', t)
     t = re.sub(r'\b__shared__\b', 'VERIF_SHARED', t)
     t = re.sub(r'\b__local\b', 'VERIF_SHARED', t)
-    t = re.sub(r'\b(__global|__constant|__restrict__)\b', '', t)
+    t = re.sub(r'\b(__global|__constant|__restrict__|SYCL_EXTERNAL)\b', '', t)
+    t, phased = phase_transform(t)
     u = _rewrite_functions(t)
+    u.phased = phased
     return u
 
 
@@ -304,9 +311,6 @@ def launch_fn(kname, params, mode, cap):
     """bounded grid loop for one device kernel: the documented launch model (every block, every thread)."""
     ps = list(params)
     call_args = [_param_name(p) for p in ps]
-    if mode == 'Metal':
-        ps = ps[:-2]
-        call_args = call_args[:-2] + ['blockIdx', 'threadIdx']
     decl = ', '.join(['unsigned long *outer', 'unsigned long *inner', 'int od', 'int id'] + ps)
     return '''
 static void LAUNCH_%(k)s(%(decl)s) {
@@ -356,7 +360,7 @@ def build_mode_source(ctx, okl_path, okl_text, mode, cap):
     parts = [du.text]
     for k, ps in du.kernels.items():
         if re.match(r'_occa_\w+_\d+$', k):
-            parts.append(launch_fn(k, ps, mode, cap))
+            parts.append(launch_fn_phased(k, ps, cap) if k in du.phased else launch_fn(k, ps, mode, cap))
     ltxt = lu.text
     lnames = [n for n in lu.kernels]
     ltxt = re.sub(r'\blaunch_(\w+)\b', r'tr_\1', ltxt)
@@ -456,7 +460,7 @@ def visit_harness(prog, mode, tr_text, active_excl=()):
     return '\n'.join(a)
 
 
-def make_queries(ctx, progs, modes, harness_fn, known_keys=(), timeout=120, jobs=None, witness_vectors=None, modes_of=None):
+def make_queries(ctx, progs, modes, harness_fn, known_keys=(), timeout=120, jobs=None, witness_vectors=None, modes_of=None, suffix=''):
     """translate every program for every mode (parallel), write the harness files, return Query objects.
     A program occa rejects is recorded (not a violation: the property quantifies over programs occa accepts)."""
     from concurrent.futures import ThreadPoolExecutor
@@ -481,7 +485,7 @@ def make_queries(ctx, progs, modes, harness_fn, known_keys=(), timeout=120, jobs
             variants = [(tuple(act), 'pass')]
         for excl, expect in variants:
             txt = harness_fn(prog, mode, tr, excl)
-            hp = os.path.join(d, '%s_%s.c' % (prog.name, mode))
+            hp = os.path.join(d, '%s_%s%s.c' % (prog.name, mode, suffix))
             open(hp, 'w').write(txt)
             q = C.Query('%s/%s' % (prog.name, mode), None, hp, unwind=prog.unwind or (prog.refcap + 2), timeout=timeout, desc=prog.desc, expect=expect, backend='cadical')
             q.cfiles = [hp]; q.tr_unwind_is_failure = True
@@ -538,7 +542,7 @@ def known_reconfirm(ctx, progs, known, harness_fn, timeout=150):
                 mode = pred[1][0] if isinstance(pred, (list, tuple)) else 'CUDA'
             if mode is None:
                 continue
-            kq, _ = make_queries(ctx, [p], [mode], harness_fn, known_keys=[k for k in known if k != key], timeout=timeout)
+            kq, _ = make_queries(ctx, [p], [mode], harness_fn, known_keys=[k for k in known if k != key], timeout=timeout, suffix='_known_' + re.sub(r'\W', '_', key))
             for q in kq:
                 q.name += '/known:' + key; q.expect = 'fail'; q.known = 'key=%s %s' % (key, text)
             if kq:
@@ -566,16 +570,24 @@ def array_harness(prog, mode, tr_text, active_excl=()):
         if '*' in ct:
             if nm in arr:
                 ect, sz, d = arr[nm]
+                if d == 'in':
+                    m.append('  %s %s_in[%d];' % (ect, nm, sz))
+                    for i in range(sz):
+                        m.append('  { %s; %s_in[%d] = %s_%d;%s }' % (
+                            ('IN_F32(%s_%d)' % (nm, i)) if ect == 'float' else ('IN_F64(%s_%d)' % (nm, i)) if ect == 'double' else ('IN(%s, %s_%d)' % (ect, nm, i)), nm, i, nm, i,
+                            (' VASSUME(%s_%d >= %s && %s_%d <= %s);' % (nm, i, prog.arr_range[0], nm, i, prog.arr_range[1])) if prog.arr_range else ''))
+                    call_r.append(nm + '_in'); call_t.append(nm + '_in')
+                    continue
                 m.append('  %s %s_ref[%d], %s_tr[%d];' % (ect, nm, sz, nm, sz))
                 for i in range(sz):
-                    m.append('  { IN(%s, %s_%d); %s_ref[%d] = %s_%d; %s_tr[%d] = %s_%d;%s }' % (
-                        ect, nm, i, nm, i, nm, i, nm, i, nm, i,
+                    m.append('  { %s; %s_ref[%d] = %s_%d; %s_tr[%d] = %s_%d;%s }' % (
+                        ('IN_F32(%s_%d)' % (nm, i)) if ect == 'float' else ('IN_F64(%s_%d)' % (nm, i)) if ect == 'double' else ('IN(%s, %s_%d)' % (ect, nm, i)), nm, i, nm, i, nm, i, nm, i,
                         (' VASSUME(%s_%d >= %s && %s_%d <= %s);' % (nm, i, prog.arr_range[0], nm, i, prog.arr_range[1])) if prog.arr_range else ''))
                 call_r.append(nm + '_ref'); call_t.append(nm + '_tr')
             else:
                 call_r.append('0'); call_t.append('0')
             continue
-        m.append('  IN(%s, %s);' % (ct, nm))
+        m.append('  IN_F32(%s);' % nm if ct == 'float' else '  IN_F64(%s);' % nm if ct == 'double' else '  IN(%s, %s);' % (ct, nm))
         if lo is not None:
             m.append('  VASSUME(%s >= %s && %s <= %s);' % (nm, lo, nm, hi))
         call_r.append(nm); call_t.append(nm)
@@ -593,6 +605,8 @@ def array_harness(prog, mode, tr_text, active_excl=()):
     m.append('  tr_%s(%s);' % (prog.kernel, ', '.join(call_t)))
     m.append('  VASSERT(!launch_overflow, "a launch dimension exceeds the bound");')
     for (ct, nm, sz, d) in prog.arrays:
+        if d == 'in':
+            continue
         for i in range(sz):
             if i in prog.skip_cmp.get(nm, ()):
                 continue
@@ -603,3 +617,171 @@ def array_harness(prog, mode, tr_text, active_excl=()):
     m += ['  VREACH();', '  return 0;', '}']
     a.append('\n'.join(m))
     return '\n'.join(a)
+
+
+# ------------------------------------------------------------------ barrier emulation (phase execution)
+class Unsupported(Exception):
+    pass
+
+
+BARRIER_RE = re.compile(r'\b(__syncthreads\s*\(\s*\)|barrier\s*\([^;]*?\)|threadgroup_barrier\s*\([^;]*?\)|item__barrier\s*\([^;]*?\))\s*;')
+VERIF_NT = 8
+PHASE_PRELUDE = r'''
+#define VERIF_NT %d
+static unsigned verif_tid;
+static int verif_set_thread(unsigned x, unsigned y, unsigned z) { threadIdx.x = x; threadIdx.y = y; threadIdx.z = z; verif_tid = x + blockDim.x * (y + blockDim.y * z); return 1; }
+#define VERIF_FOR_THREADS for (unsigned tz_ = 0; tz_ < blockDim.z; tz_++) for (unsigned ty_ = 0; ty_ < blockDim.y; ty_++) for (unsigned tx_ = 0; tx_ < blockDim.x; tx_++) if (verif_set_thread(tx_, ty_, tz_))
+/* atomics: under the sequential emulation an atomic update is the plain update */
+#define atomicAdd(p, v) (*(p) += (v))
+#define atomicSub(p, v) (*(p) -= (v))
+#define atomicAnd(p, v) (*(p) &= (v))
+#define atomicOr(p, v) (*(p) |= (v))
+#define atomicXor(p, v) (*(p) ^= (v))
+#define atomicInc(p) ((*(p))++)
+#define atomicDec(p) ((*(p))--)
+''' % VERIF_NT
+
+
+def _stmt_end(s, i):
+    """index just past the statement starting at s[i] (s[i] not blank)"""
+    n = len(s)
+    m = re.match(r'(for|while|if|switch)\b', s[i:])
+    if m:
+        j = s.index('(', i)
+        e = _match(s, j)
+        k = e
+        while k < n and s[k] in ' \t\r\n': k += 1
+        e2 = _stmt_end(s, k)
+        if m.group(1) == 'if':
+            k2 = e2
+            while k2 < n and s[k2] in ' \t\r\n': k2 += 1
+            if s.startswith('else', k2) and not (s[k2 + 4:k2 + 5].isalnum() or s[k2 + 4:k2 + 5] == '_'):
+                k3 = k2 + 4
+                while k3 < n and s[k3] in ' \t\r\n': k3 += 1
+                return _stmt_end(s, k3)
+        return e2
+    if s[i] == '{':
+        return _match(s, i, '{', '}')
+    if s[i] == '#':          # preprocessor line
+        e = s.find('\n', i)
+        return n if e < 0 else e + 1
+    d = 0
+    while i < n:
+        c = s[i]
+        if c in '"\'':
+            i = _skip_lit(s, i); continue
+        if c in '([{': d += 1
+        elif c in ')]}': d -= 1
+        elif c == ';' and d == 0:
+            return i + 1
+        i += 1
+    return n
+
+
+def _split_statements(body):
+    out = []; i = 0; n = len(body)
+    while i < n:
+        while i < n and body[i] in ' \t\r\n': i += 1
+        if i >= n: break
+        e = _stmt_end(body, i)
+        out.append(body[i:e].strip()); i = e
+    return out
+
+
+DECL_RE = re.compile(r'^(?:const\s+)?((?:(?:unsigned|signed|long|short)\s+)*(?:int|long|float|double|char|short|size_t|bool|unsigned))\s+([^;]*);$', re.S)
+
+
+def _parse_decl(st):
+    """[(ctype, name, dims, init)] for a simple declaration statement, else None"""
+    m = DECL_RE.match(st)
+    if not m:
+        return None
+    ty = m.group(1); res = []
+    for d in _split_params(m.group(2)):
+        dm = re.match(r'^(\**)\s*(\w+)\s*((?:\[[^\]]*\])*)\s*(?:=\s*(.*))?$', d.strip(), re.S)
+        if not dm:
+            return None
+        res.append((ty + ' ' + dm.group(1), dm.group(2), dm.group(3) or '', dm.group(4)))
+    return res
+
+
+def _phase_block(stmts, hoisted, shared):
+    out = []; seg = []
+    def flush():
+        if seg:
+            out.append('VERIF_FOR_THREADS {\n' + '\n'.join(seg) + '\n}')
+            del seg[:]
+    for st in stmts:
+        if st == 'VERIF_BARRIER;' or st == ';':
+            if st != ';': flush()
+            continue
+        if 'VERIF_BARRIER' in st:
+            flush()
+            if st.startswith('{'):
+                out.append(_phase_block(_split_statements(st[1:-1]), hoisted, shared))
+                continue
+            m = re.match(r'(for|while|if)\b', st)
+            if m:
+                j = st.index('(')
+                e = _match(st, j)
+                body = st[e:].strip()
+                if body.startswith('{') and _match(body, 0, '{', '}') == len(body):
+                    # control flow around a barrier must be uniform over the threads of a block (the launch model requires it)
+                    out.append(st[:e] + ' {\n' + _phase_block(_split_statements(body[1:-1]), hoisted, shared) + '\n}')
+                    continue
+            raise Unsupported('barrier inside an unsupported statement form: ' + st[:80])
+        if st.startswith('VERIF_SHARED'):
+            shared.append(st); continue
+        d = _parse_decl(st)
+        if d:
+            for (ty, nm, dims, init) in d:
+                hoisted.append((ty, nm, dims))
+                if init is not None:
+                    seg.append('%s = %s;' % (nm, init))
+        else:
+            seg.append(st)
+    flush()
+    return '\n'.join(out)
+
+
+def phase_transform(text):
+    """device kernels that contain barriers are rewritten so that every code segment between two barriers runs for all
+    threads of the block before the next one starts; variables declared around the barriers become one copy per thread.
+    Returns (text, set of kernel names that now run once per block)."""
+    text = BARRIER_RE.sub('VERIF_BARRIER;', text)
+    phased = set(); out = []; last = 0
+    for (hs, lp, rp, bs, be) in _top_level_functions(text):
+        if bs is None or 'VERIF_BARRIER' not in text[bs:be]:
+            continue
+        name = re.search(r'(\w+)\s*$', text[hs:lp]).group(1)
+        hoisted = []; shared = []
+        body = _phase_block(_split_statements(text[bs + 1:be - 1]), hoisted, shared)
+        pre = list(shared)
+        for (ty, nm, dims) in hoisted:
+            pre.append('static %s %s_pt[VERIF_NT]%s;\n#define %s %s_pt[verif_tid]' % (ty.replace('const ', ''), nm, dims, nm, nm))
+        post = ['#undef %s' % nm for (_, nm, _) in hoisted]
+        out.append(text[last:bs]); out.append('{\n' + '\n'.join(pre) + '\n' + body + '\n' + '\n'.join(post) + '\n}\n'); last = be
+        phased.add(name)
+    out.append(text[last:])
+    return ''.join(out), phased
+
+
+def launch_fn_phased(kname, params, cap):
+    ps = list(params)
+    call_args = [_param_name(p) for p in ps]
+    decl = ', '.join(['unsigned long *outer', 'unsigned long *inner', 'int od', 'int id'] + ps)
+    return '''
+static void LAUNCH_%(k)s(%(decl)s) {
+  if (outer[0] == 0 || outer[1] == 0 || outer[2] == 0 || inner[0] == 0 || inner[1] == 0 || inner[2] == 0) return;
+  if ((long) outer[0] < 0 || (long) outer[1] < 0 || (long) outer[2] < 0 || (long) inner[0] < 0 || (long) inner[1] < 0 || (long) inner[2] < 0) launch_negative = 1;
+  if (outer[0] > %(cap)d || outer[1] > %(cap)d || outer[2] > %(cap)d || inner[0] > %(cap)d || inner[1] > %(cap)d || inner[2] > %(cap)d || inner[0] * inner[1] * inner[2] > VERIF_NT) { launch_overflow = 1; return; }
+  gridDim.x = outer[0]; gridDim.y = outer[1]; gridDim.z = outer[2]; blockDim.x = inner[0]; blockDim.y = inner[1]; blockDim.z = inner[2];
+  for (unsigned bz = 0; bz < outer[2]; bz++) for (unsigned by = 0; by < outer[1]; by++) for (unsigned bx = 0; bx < outer[0]; bx++) {
+    blockIdx.x = bx; blockIdx.y = by; blockIdx.z = bz;
+    %(k)s(%(args)s);      /* the phased kernel loops over the threads of the block itself */
+  }
+}
+''' % dict(k=kname, decl=decl, cap=cap, args=', '.join(call_args))
+
+
+PRELUDE = PRELUDE + PHASE_PRELUDE
